@@ -114,7 +114,7 @@ def brentsroot(f, bounds, tol=None, verbose=False, return_interval=False):
     fa = f(a)
     fb = f(b)
 
-    if fa * fb >= D.epsilon(lower_bound.dtype):
+    if fa * fb > 0:
         return D.ar_numpy.asarray(numpy.inf, like=lower_bound), False
     if D.ar_numpy.abs(fa) < D.ar_numpy.abs(fb):
         a, b = b, a
@@ -169,10 +169,11 @@ def brentsroot(f, bounds, tol=None, verbose=False, return_interval=False):
     if verbose:
         with numpy.printoptions(precision=17, linewidth=200):
             print(f"[{numiter}] a={D.ar_numpy.to_numpy(a)}, b={D.ar_numpy.to_numpy(b)}, f(a)={D.ar_numpy.to_numpy(fa)}, f(b)={D.ar_numpy.to_numpy(fb)}")
+    # success: the bracket [a, b] held a sign change (or an exact root at one end) throughout
     if return_interval:
-        return b, D.ar_numpy.abs(f(b)) <= tol, (a, b)
+        return b, fa * fb <= 0, (a, b)
     else:
-        return b, D.ar_numpy.abs(f(b)) <= tol
+        return b, fa * fb <= 0
 
 
 def brentsrootvec(f, bounds, tol=None, verbose=False, return_interval=False, accepts_mask=False):
@@ -252,10 +253,11 @@ def brentsrootvec(f, bounds, tol=None, verbose=False, return_interval=False, acc
     fs = D.ar_numpy.copy(fc)
 
     mflag = D.ar_numpy.ones_like(a, dtype=bool, like=upper_bound)
+    bracketed = fa * fb < 0
     conv[fa * fb >= 0] = False
     not_conv = D.ar_numpy.logical_not(conv)
     numiter = D.ar_numpy.ones_like(a, dtype=D.autoray.to_backend_dtype('int64', like=upper_bound), like=upper_bound) * 3
-    true_conv = D.ar_numpy.abs(fb) <= tol
+    true_conv = D.ar_numpy.logical_or(bracketed, fb == 0)
 
     while D.ar_numpy.any(conv):
         if verbose:
@@ -309,7 +311,7 @@ def brentsrootvec(f, bounds, tol=None, verbose=False, return_interval=False, acc
         conv = D.ar_numpy.logical_not(D.ar_numpy.logical_or(D.ar_numpy.logical_or(fb == 0, fs == 0), D.ar_numpy.abs(b - a) < tol))
         conv = conv & (numiter <= 64)
         not_conv = D.ar_numpy.logical_not(conv)
-        true_conv = (D.ar_numpy.abs(fb) <= tol)
+        true_conv = D.ar_numpy.logical_or(bracketed, fb == 0)
 
     if verbose:
         with numpy.printoptions(precision=17, linewidth=200):
